@@ -3,7 +3,15 @@ From Coq Require Import Strings.String Strings.Byte.
 From Coq Require Import List NArith ZArith.
 From Goit Require Import Bytes Obj Reflog ReflogFacts.
 From Goit Require Import World Repo BranchFacts JournalFacts.
+From Goit Require Import Bridge.
 Import ListNotations.
+
+(* T0 (tie to the source): every regexp literal of the current Go source denotes
+   the same language, with the same anchoring, as the pattern of the model — proved
+   by running the verified equivalence checker on SrcRegex.v, which is regenerated
+   from /repo on every run (see Bridge.v) *)
+Theorem C11_source_patterns_are_the_models : source_patterns_agree.
+Proof. exact source_patterns. Qed.
 
 (* T1: one written line reads back with its id, kind and message — whatever the
    message contains (": ", tabs, blanks, non-ASCII), newlines excepted: commit()
@@ -96,3 +104,4 @@ Print Assumptions C11_journal_always_reads_back.
 Print Assumptions C11_reflog_extends.
 Print Assumptions C11_head_entry.
 Print Assumptions C11_reflog_total.
+Print Assumptions C11_source_patterns_are_the_models.
